@@ -5,11 +5,12 @@
    1 -> 0 tree (the execution model's document, Valid/ToExec.to_exec) | 1 (outside its fragment)
    5 -> verdict of the field-merge specification function (Valid/Overlap.spec_verdict) on the translated
         operation (0 none, 1 conflict, 2 untyped, 3 fuel), occurrence numbers distinct? | 6 | 7
+   6 -> 0 n (27 1 path)^n: the errors of StreamDirectiveOnListField (Valid/RulesStream.v)
    2 -> rules13 silent?, rules 5 8 9 12 of Valid/Rules.v silent?, to_exec defined?, well_typed?,
         schema_ok?  (0/1 each; 2 = undefined) *)
 From GV Require Import Base.Prelude Lang.Ast Exec.Value Exec.Schema Exec.Spec Exec.Typing Exec.Wire
   Valid.StaticTyping Valid.Rules Valid.RulesWire Valid.Rules13 Valid.ToExec Valid.RulesLit Valid.RulesTyping
-  Valid.ToOverlap.
+  Valid.ToOverlap Valid.RulesStream.
 From GV Require Valid.Overlap.
 
 Definition to_dirtable (w : wtree) : list (str * list arg_def) :=
@@ -100,5 +101,6 @@ Definition run (inp : list N) : list N :=
         end
       | None => [6]
       end))
+  | 6 :: r => with_input r (fun vs d => enc_result (Some (rule_stream_on_list_field vs d)))
   | _ => [999999]
   end.
